@@ -171,6 +171,43 @@ func (b *Box) CloneItems() []int {
 	return slices.Clone(b.items)
 }
 
+// a struct held BY VALUE inside the target that hosts a lock and a tracked field: its methods are analysed with their
+// receiver bound to that part (called: in place; started with go: "<entry>.go<k>"; reached from nowhere: "Type.method")
+type hub struct {
+	hmu  sync.Mutex
+	subs []chan int
+	in   chan int
+}
+
+func (h *hub) add(c chan int) {
+	h.hmu.Lock()
+	defer h.hmu.Unlock()
+	h.subs = append(h.subs, c)
+}
+func (h *hub) pump() {
+	for v := range h.in {
+		h.hmu.Lock()
+		n := len(h.subs)
+		h.hmu.Unlock()
+		_ = n + v
+	}
+}
+func (h *hub) lonely() int   { return len(h.subs) }
+func (h hub) byValue() int   { return len(h.subs) }
+
+type Hubbed struct {
+	geometry
+	h hub
+}
+type geometry struct{ rows, cols int }
+
+func (x *Hubbed) Add(c chan int) { x.h.add(c) }
+func (x *Hubbed) Start()         { go x.h.pump() }
+func (x *Hubbed) Area() int      { return x.rows * x.geometry.cols }
+func (x *Hubbed) SetRows(n int)  { x.h.hmu.Lock(); x.rows = n; x.h.hmu.Unlock() }
+func (x *Hubbed) CopyHub() hub   { return x.h }
+func (x *Hubbed) CopyGeo() geometry { return x.geometry }
+
 // ---- must be Unknown ----
 
 func (b *Box) rec()        { b.rec2() }
